@@ -128,7 +128,9 @@ func c07Units(c *Ctx) []*c07Unit {
 	// definition, two operations sharing a body parameter, two pointers to one target
 	sensitive := func(f gen.Feature) bool {
 		return strings.Contains(f.Label, "collidingImport") || strings.Contains(f.Label, "refAux") || strings.Contains(f.Label, "pointer[") ||
-			strings.Contains(f.Label, "pathBody") || strings.Contains(f.Label, "selfRecursiveAux") || strings.Contains(f.Label, "preNamed") || strings.Contains(f.Label, "twoImports") || strings.Contains(f.Label, "SameGeneratedName") || strings.Contains(f.Label, "twoPathsManglingAlike") || strings.Contains(f.Label, "pathPrefixOfAnother")
+			strings.Contains(f.Label, "pathBody") || strings.Contains(f.Label, "selfRecursiveAux") || strings.Contains(f.Label, "preNamed") || strings.Contains(f.Label, "twoImports") || strings.Contains(f.Label, "SameGeneratedName") || strings.Contains(f.Label, "twoPathsManglingAlike") || strings.Contains(f.Label, "pathPrefixOfAnother") ||
+			strings.Contains(f.Label, "CaseDifferent") || strings.Contains(f.Label, "NamesEqualUpTo") || strings.Contains(f.Label, "unusedAlias") || strings.Contains(f.Label, "auxDiamond") ||
+			strings.Contains(f.Label, "SameNameDifferentDirs") || strings.Contains(f.Label, "paramRefWithAuxSchema") || strings.Contains(f.Label, "pathItemRefWithAuxSchema")
 	}
 	if c.Thorough() {
 		for i := range singles {
